@@ -121,6 +121,8 @@ func (SymbolTable).Enclosing
 func (SymbolTable).InsertDecl
   trusted
   modifies ast.BasicSymbolTable, map:map[string]ast.Declaration
+  // ownership: a scope's own table is never the export table of a module (both are made by their constructors)
+  ensures forall m *Module, k string :: mapHas(m.PublicDecls, k) == old(mapHas(m.PublicDecls, k)) && m.PublicDecls[k] == old(m.PublicDecls[k])
 func IsGlobalScope
   trusted
   modifies nothing
